@@ -30,6 +30,13 @@ theorem eff_fromFmt {s s' : St} (h : Inv s) {v tmp : Nat} (hv : v < s.n) (ht : t
   obtain ⟨⟨s1, r⟩, h1, s2, h2, rfl⟩ := e
   exact eff_viaTemp hv ht hne h0 (eff_printf h ht h1) h2
 
+theorem eff_fromOut {s s' : St} (h : Inv s) {v tmp : Nat} (hv : v < s.n) (ht : tmp < s.n) (hne : v ≠ tmp)
+    (h0 : absVar s tmp = []) {out : List Nat} (e : fromOut s v out tmp = some s') :
+    Eff s s' v (out.map some) := by
+  simp only [fromOut, Option.bind_eq_bind, Option.bind_eq_some_iff, Option.pure_def, Option.some.injEq] at e
+  obtain ⟨⟨s1, r⟩, h1, s2, h2, rfl⟩ := e
+  exact eff_viaTemp hv ht hne h0 (eff_printfOut h ht h1).1 h2
+
 theorem eff_fromPrintf {s s' : St} (h : Inv s) {v tmp : Nat} (hv : v < s.n) (ht : tmp < s.n) (hne : v ≠ tmp)
     (h0 : absVar s tmp = []) {f : List Fmt} (e : fromPrintf s v f tmp = some s') :
     Eff s s' v ((render f).map some) := by
